@@ -81,7 +81,7 @@ FlushOne(b, w) == \* TcpConnection.flush(): first chunk, at most MAXSEND units, 
             n == Min2(Min2(Len(h), MAXSEND), CAP - Len(w))
         IN [b |-> IF n = Len(h) THEN Tail(b) ELSE <<SubSeq(h, n + 1, Len(h))>> \o Tail(b),
             w |-> w \o SubSeq(h, 1, n)]
-upOpen    == HasUp /\ ~upBroken
+upOpen    == HasUp                     \* (a broken write side is found out again by every flush attempt: upBroken only records it)
 cReadable == cIn # <<>> \/ cPeer \in {"wrshut", "closed"}
 cWritable == Len(cOut) < CAP \/ cPeer = "closed"
 uReadable == uIn # <<>> \/ uPeer \in {"wrshut", "closed"}
@@ -104,13 +104,14 @@ Tick == /\ ~dead /\ Ready
          \* 2. upstream flush (plugin.write_to_descriptors)
          uErr == ~td1 /\ rUW /\ uPeer = "closed"
          f2 == IF ~td1 /\ rUW /\ ~uErr THEN FlushOne(ubuf, uOut) ELSE [b |-> ubuf, w |-> uOut]
-         td2 == td1 \/ (uErr /\ ~FIX)                 \* as built: write error to upstream => teardown now (F12)
-         ub2 == uErr /\ FIX                            \* intended: stop writing to the upstream, keep reading it to its end
+         td2 == td1
+         ub2 == uErr                                   \* a failed write: what is queued for the upstream is dropped, reading it goes on to its end
          \* 3. client read (handle_readables -> handle_data -> on_client_data)
          doCR == ~td2 /\ ~readsTeared /\ rCR
          cEof == doCR /\ cIn = <<>>
          nC == IF doCR /\ ~cEof THEN Min2(Len(cIn), RECV) ELSE 0
-         ubuf3 == IF nC > 0 /\ upOpen /\ ~ub2 THEN Append(f2.b, SubSeq(cIn, 1, nC)) ELSE f2.b
+         ub2b == IF ub2 THEN <<>> ELSE f2.b            \* the failed flush dropped the queue
+         ubuf3 == IF nC > 0 /\ HasUp THEN Append(ub2b, SubSeq(cIn, 1, nC)) ELSE ub2b
          \* end of stream from the client: with output pending for it (it may only have closed its sending side) the handler
          \* switches to flush-then-close (BaseTcpServerHandler.handle_readables), otherwise reads are torn down
          cEofFlush == cEof /\ f1.b # <<>>
@@ -158,7 +159,7 @@ IntegrityCU == dead \/ upBroken \/ ~HasUp \/ SCEN = "http" \/ uGot \o uOut \o Fl
 PrefixC == IF SCEN = "reject" THEN IsPrefix(cGot, OwnStream) ELSE IsPrefix(cGot, Stream(uSent))
 PrefixU == IsPrefix(uGot, Stream(cSent))
 \* C07 / C01: when the proxy ends the connection nothing it holds for a peer that can still receive is dropped
-ExcuseF12 == ~FIX /\ cause = "uerr"
+ExcuseF12 == FALSE        \* (F12 - teardown on a failed write to the upstream - was fixed in the code: nothing to excuse any more)
 ExcuseF20 == ~FIX /\ cause \in {"ceof", "cerr"}
 NoDropToClient   == (dead /\ cPeer # "closed" /\ ~ExcuseF12) => cbuf = <<>>
 NoDropToUpstream == (dead /\ HasUp /\ uPeer = "open" /\ ~upBroken /\ ~ExcuseF20) => ubuf = <<>>
